@@ -73,6 +73,8 @@ fn run_module(decls: &[Value], rule_header: Option<&[Value]>, layout: u64, event
             Some(flines) => {
                 let same = flines == hdr_lines;
                 v["meta"] = json!(same);
+                // node count of the restricted module parsed on its own (it is all-private: one zone marker)
+                v["meta_nnode"] = json!(ho.nnode);
                 if !same {
                     let k = flines.iter().zip(hdr_lines.iter()).position(|(a, b)| a != b).unwrap_or(flines.len().min(hdr_lines.len()));
                     v["meta_diff"] = json!({"line": k, "restricted": flines.get(k), "header": hdr_lines.get(k),
